@@ -116,6 +116,26 @@ theorem next1Loop_rep (p acq ws un) : (next1Loop p acq ws un).repaired := by
 theorem idleLoop_rep (p ws acc) : (idleLoop p ws acc).repaired := by
   cases ws <;> simp [idleLoop, Next.repaired, K.repaired]
 
+theorem aliveLoop_rep (p ws acc again) : (aliveLoop p ws acc again).repaired := by
+  cases ws with
+  | cons w rest => simp [aliveLoop, Next.repaired, K.repaired]
+  | nil =>
+    cases again with
+    | none => simp [aliveLoop, Next.repaired]
+    | some ws2 => cases ws2 <;> simp [aliveLoop, Next.repaired, K.repaired]
+theorem callLoop_rep (p ws) : (callLoop p ws).repaired := by
+  cases ws <;> simp [callLoop, Next.repaired, K.repaired]
+theorem acqCLoop_rep (p all ws got) : (acqCLoop p all ws got).repaired := by
+  cases ws
+  · exact callLoop_rep ..
+  · simp [acqCLoop, Next.repaired, K.repaired]
+theorem acqWLoop_rep (p ws acc) : (acqWLoop p ws acc).repaired := by
+  cases ws <;> simp [acqWLoop, Next.repaired, K.repaired]
+theorem acqCIter_rep (p all rest got) : (acqCIter p all rest got).repaired := by
+  unfold acqCIter; split
+  · exact acqCLoop_rep ..
+  · exact callLoop_rep ..
+
 theorem resume_rep (k : K) (b : Bool) (hk : k.repaired = true) : (resume k b).repaired := by
   cases k <;> simp only [resume] <;> simp only [K.repaired] at hk
   · split
@@ -151,6 +171,17 @@ theorem resume_rep (k : K) (b : Bool) (hk : k.repaired = true) : (resume k b).re
     · simp [Next.repaired, K.repaired]
     · exact idleLoop_rep ..
   · exact idleLoop_rep ..
+  · exact aliveLoop_rep ..
+  · split
+    · simp [Next.repaired, K.repaired]
+    · split <;> simp [Next.repaired, K.repaired]
+  · split <;> simp [Next.repaired, K.repaired]
+  · split
+    · simp [Next.repaired, K.repaired]
+    · exact acqCIter_rep ..
+  · exact acqCIter_rep ..
+  · exact callLoop_rep ..
+  · exact acqWLoop_rep ..
 
 theorem start_rep (pw : Pid → List Wid) (op : Op) (h : op.repaired = true) : (start pw op).repaired := by
   cases op <;> simp only [start] <;> simp only [Op.repaired] at h
@@ -162,6 +193,11 @@ theorem start_rep (pw : Pid → List Wid) (op : Op) (h : op.repaired = true) : (
   · exact relAllLoop_rep ..
   · exact idleLoop_rep ..
   · simp [Next.repaired, K.repaired]
+  · exact aliveLoop_rep ..
+  · split <;> simp [Next.repaired, K.repaired]
+  · exact acqCLoop_rep ..
+  · simp [Next.repaired, K.repaired]
+  · exact acqWLoop_rep ..
 
 /-- All scripts use only the repaired operations, and every active call is owner-checked. -/
 def RepairedCfg (c : Cfg) : Prop :=
